@@ -177,6 +177,13 @@ def gen_callbacks(rng: random.Random, P: Profile, scn: Scn, evs):
                 cid[0] += 1
                 scn.cbs.append(Cb(cid[0], g, "name", c.provider, c.name, c.at, coro=c.coro, sig=c.sig, named=c.named,
                                   yields=c.yields, wrap=c.wrap, alias_of=c.id))
+    # an inline plain function whose __name__ happens to be the name of an unrelated method of the model or of a
+    # listener (the attached function must run, not the provider's method)
+    methods = [c.name for c in scn.cbs if c.style == "name" and c.provider != "machine" and not c.alias_of]
+    if methods:
+        for c in scn.cbs:
+            if c.style == "callable" and rng.random() < 0.2:
+                c.name = rng.choice(methods)
     used = sorted({c.provider for c in scn.cbs if c.provider.startswith("L")})
     scn.listeners_ctor = used
     if rng.random() < P.p_model_shape:
